@@ -8,6 +8,7 @@ import Mathlib.Algebra.BigOperators.Group.List.Basic
 import Mathlib.Tactic.FieldSimp
 import Mathlib.Tactic.Ring
 import Mathlib.Tactic.Linarith
+import PhotVerif.Gen.ForwardTable
 
 namespace PhotVerif.C16
 open PhotVerif PhotVerif.Gen PhotVerif.Model PhotVerif.Model.ApStats PhotVerif.C01 PhotVerif.C02
@@ -204,5 +205,15 @@ theorem centroid_rebase (cv : List (Int × Int × Rat)) (sx sy : Int) (I : Inp) 
 -- non-vacuity: three pixel values 4, 1, 7
 example : (stats [4, 1, 7]).map (·.sum) = some 12 ∧ (stats [4, 1, 7]).map (·.min) = some 1 ∧
     (stats [4, 1, 7]).map (·.max) = some 7 ∧ (stats [4, 1, 7]).map (·.n) = some 3 := by decide +kernel
+
+/-! ### no delegating call in this property's modules drops an argument it holds (table regenerated from the source) -/
+
+/-- TABLE OBLIGATION: in the modules of this property, every call that delegates to another photutils function, method or
+    constructor passes on each value the caller holds under the callee's own parameter name (its own parameters, `self.<name>`
+    attributes set in `__init__`) - dropped `subpixels`, `mask`, `connectivity`, `include_localbkg` ... keywords were a recurring
+    kind of seeded change -/
+theorem no_dropped_arguments : Gen.ForwardTable.droppedIn Gen.ForwardTable.scopeC16 =
+    -- the one intended exception: the 'center' masks are built with method='center', which ignores `subpixels`
+    [("aperture/stats.py", "ApertureStats._aperture_masks_center", "to_mask", "subpixels")] := by decide
 
 end PhotVerif.C16
